@@ -77,3 +77,49 @@ def refresh_unconditional(ctx, scopes, why):
                 ctx.violate('%s:%s' % (modname, q), '`%s` runs only when `%s` is truthy (`if %s`): a reported value of 0 / empty never replaces the stored one' % (norm(st)[:80], expr, norm(guard.test)[:90]), st, why)
     ctx.saw('%d functions, %d stores of a looked-up value into a record scanned for a truthiness guard on the value itself' % (n, stores))
     return stores
+
+
+_ZERO_FIXTURE = """
+def bad(salt, lot=None, sequence=None):
+    if (lot and not sequence) or (not lot and sequence):
+        raise ValueError('both')
+    if lot and sequence:
+        if not 0 <= sequence <= 4095:
+            raise ValueError('range')
+
+def good(salt, lot=None, sequence=None):
+    if (lot is None) != (sequence is None):
+        raise ValueError('both')
+    if lot is not None:
+        if not 0 <= sequence <= 4095:
+            raise ValueError('range')
+
+def other(n=None):
+    if not n:
+        n = 5
+    if not 1 <= n <= 9:
+        raise ValueError('range')
+"""
+
+
+def zero_valid(ctx, modules, why):
+    """parameters whose validated range includes 0 are never tested for presence by truthiness (engine sa/falsy.zero_valid_truth_tests)"""
+    res = {f.name: len(falsy.zero_valid_truth_tests(f)) for f in ast.parse(_ZERO_FIXTURE).body}
+    if res != {'bad': 3, 'good': 0, 'other': 0}:
+        raise AnalysisError('zero-valid fixture classified %s' % res)
+    ctx.saw('zero-valid self-test on the embedded fixture: %s' % res)
+    n = ranges = 0
+    for modname in modules:
+        m = ctx.repo.mod(modname)
+        for q, f in m.functions.items():
+            n += 1
+            hits = falsy.zero_valid_truth_tests(f)
+            seen = set()
+            for p, t, rg in hits:
+                key = (p, norm(t))
+                if key in seen:
+                    continue
+                seen.add(key)
+                ctx.violate('%s:%s' % (modname, q), 'parameter `%s` is accepted in the range `%s`, which includes 0, but `%s` treats 0 as "not given"' % (p, norm(rg), norm(t)[:60]), t, why)
+    ctx.saw('%d functions scanned for parameters that are range-checked with 0 inside the range and presence-tested by truthiness' % n)
+    return n
